@@ -96,7 +96,25 @@ func (o *sessionTracker) RemoteLogin(rul common.RemoteUserLogin) error {
 			u.setRemoteUserLoginInfo(rul)
 
 			found = true
+
+			// A short session may already be over by the time its
+			// login arrives: the cached events then include the
+			// AUDIT_CRED_DISP event that ends the session. In that
+			// case the session must be released once its events
+			// are written, exactly as auditEventWithSession does
+			// when that event arrives after the login. Otherwise
+			// the ended session would capture the next login that
+			// happens to reuse its PID.
+			sessionEnded := u.hasCachedSessionEnd()
+
 			writeErr = u.writeAndClearCache(o.eventWriter)
+
+			if sessionEnded {
+				// Deleting the current key while iterating is
+				// safe, and the map's lock is already held.
+				o.sessIDsToUsers.DeleteUnsafe(asi)
+			}
+
 			// stop iteration
 			return false
 		}
@@ -350,6 +368,18 @@ func (o *user) setRemoteUserLoginInfo(login common.RemoteUserLogin) {
 // hasRemoteUserLoginInfo checks if there is a remote user login present for the user.
 func (o *user) hasRemoteUserLoginInfo() bool {
 	return o.hasRUL
+}
+
+// hasCachedSessionEnd returns true if the cached events include the
+// event that marks the end of the audit session (AUDIT_CRED_DISP).
+func (o *user) hasCachedSessionEnd() bool {
+	for i := range o.cached {
+		if o.cached[i].Type == auparse.AUDIT_CRED_DISP {
+			return true
+		}
+	}
+
+	return false
 }
 
 // toAuditEvent takes an array of coalesced events and returns and audit event
